@@ -25,10 +25,10 @@ Theorem C13_refuted : ~ C13_full_statement.
 Proof. intros [H _]. exact (not_clause_select H). Qed.
 Print Assumptions C13_refuted.
 
-(* ... and every single clause of it, each by a machine-checked witness of a different deviating behaviour:
-   BasicCriterion alias unquoted; NullCriterion alias inside WHERE; aliased ValueWrapper as function argument;
-   ComplexCriterion forwarding with_alias to its operands; VALUES (NOW() "n"); aliased NullCriterion in GROUP BY and in
-   ORDER BY; ComplexCriterion's never-rendered alias referenced by ORDER BY *)
+(* ... and every single clause of it, each by a machine-checked witness. After the repairs f84cf61 / 39a4740 / 55bfddf /
+   97eddd6 two root causes are left: the classes that ignore with_alias (NullCriterion alias inside WHERE, GROUP BY,
+   ORDER BY; an aliased ValueWrapper as function argument, as operand of a selected expression, inside VALUES) and the
+   bare alias of a sub-query selected under Snowflake (select list, and the reference ORDER BY "sq" to it) *)
 Theorem C13_every_clause_refuted :
   ~ clause_select /\ ~ clause_filters /\ ~ clause_funcarg /\ ~ clause_larger /\ ~ clause_values
   /\ ~ clause_group /\ ~ clause_order /\ ~ clause_defined.
@@ -45,11 +45,12 @@ Print Assumptions C13_refutation_witnesses.
 
 (* The fragment on which every clause holds, for ALL statements / classes / terms / depths:
    - select list: [sel_frag s t] = the top constructor consumes with_alias (Field, ArithmeticExpression, Case, Function incl.
-     aggregates/analytics, sub-query, BasicCriterion), its alias comes out in the class's convention (BasicCriterion only
-     where alias_quote_char is set or nothing is quoted; a sub-query not under Snowflake), and [quiet t]: no sub-term at
-     any depth is an aliased Always constructor;
-   - other positions: [quiet] of the term (of the arguments, of the sub-terms);
-   - larger expression in the select list / VALUES: additionally the top node [shields] its operands from with_alias;
+     aggregates/analytics, comparison, AND/OR criterion, sub-query), its alias comes out in the class's convention (all of
+     them in all ten classes, except a sub-query under Snowflake), and [quiet t]: no sub-term at any depth is an aliased
+     constructor that ignores with_alias;
+   - every other position, function arguments, VALUES, and the inside of any larger expression in ANY position under ANY
+     constructor: [quiet] of the term (of the arguments, of the sub-terms) -- the "shielding" side condition of the first
+     version is gone, VALUES needs no unaliased top any more;
    - definedness: the select items of that name are in the select fragment ([defs_ok]). *)
 Definition C13_fragment_statement : Prop :=
   frag_select /\ frag_filters /\ frag_funcarg /\ frag_larger /\ frag_values /\ frag_group /\ frag_order /\ frag_defined.
@@ -96,3 +97,21 @@ Theorem C13_nested_groupby_switch_inherited :
   /\ (forall c, cls_gba c = match c with COracle | CMSSQL => false | _ => true end).
 Proof. exact (conj gba_inherited_chain (conj gba_off_oracle_mssql gba_classes)). Qed.
 Print Assumptions C13_nested_groupby_switch_inherited.
+
+(* Proved for EVERY term since the wave-2 repairs (it was false before 39a4740 / 55bfddf): no constructor hands with_alias
+   to its operands -- a node without an alias of its own renders the same with and without the flag *)
+Theorem C13_operands_never_see_with_alias : forall c t, alias_of t = None -> render c t = render (set_wa c false) t.
+Proof. exact unaliased_wa_irrelevant. Qed.
+Print Assumptions C13_operands_never_see_with_alias.
+
+(* ... and comparisons / AND-OR criteria over quiet operands are in the select fragment of every statement of every class
+   (before 97eddd6 / 55bfddf: a comparison only where alias_quote_char is set, an AND/OR criterion never) *)
+Theorem C13_comparisons_in_fragment : forall s t,
+  (match t with TBasic _ _ _ _ | TCplx _ _ _ _ => true | _ => false end) = true -> quiet t = true -> sel_frag s t = true.
+Proof. exact basic_cplx_in_fragment. Qed.
+Print Assumptions C13_comparisons_in_fragment.
+
+(* the repaired deviations as texts (regression witnesses; the same cases are in the corpus) *)
+Theorem C13_repaired_witnesses : repaired_texts.
+Proof. exact repaired_texts_hold. Qed.
+Print Assumptions C13_repaired_witnesses.
